@@ -127,6 +127,10 @@ def caught_by(node, exc, func):
     child = node
     cur = getattr(node, '_parent', None)
     while cur is not None and cur is not func:
+        if isinstance(cur, ast.With) and _in_list(child, cur.body):
+            r = _with_catches(cur, exc)
+            if r:
+                return cur
         if isinstance(cur, ast.Try) and _in_list(child, cur.body):
             for h in cur.handlers:
                 names = handler_names(h)
@@ -137,6 +141,51 @@ def caught_by(node, exc, func):
         child = cur
         cur = getattr(cur, '_parent', None)
     return None
+
+
+CM_REPO = [None]          # repository used to resolve context managers (set by Effects)
+UNCERTAIN_CM = []         # (with node, reason): context managers whose exception handling could not be decided - the sites below them are reported as undecided
+
+
+def _with_catches(w, exc):
+    """does the with statement absorb an exception of class `exc` raised in its body?  contextlib.suppress is decided; a repository context manager whose __exit__ / generator
+    may swallow exceptions is recorded in UNCERTAIN_CM and treated as absorbing (the caller reports the analysis as undecided)"""
+    for item in w.items:
+        ce = item.context_expr
+        if not isinstance(ce, ast.Call):
+            continue
+        cn = norm(ce.func)
+        if cn in ('contextlib.suppress', 'suppress'):
+            names = [a.id if isinstance(a, ast.Name) else (a.attr if isinstance(a, ast.Attribute) else norm(a)) for a in ce.args]
+            if any(is_subclass(exc, n) for n in names):
+                return True
+            continue
+        repo = CM_REPO[0]
+        if repo is None or not isinstance(ce.func, ast.Name):
+            continue
+        for nm in ('runtime', 'value', 'data', 'library', 'parser', 'model', 'options', 'bare'):
+            try:
+                m = repo.module(nm)
+            except Exception:
+                continue
+            cls = getattr(m, 'classes', {}).get(ce.func.id)
+            if cls is not None:
+                ex = next((f for f in cls.body if isinstance(f, ast.FunctionDef) and f.name == '__exit__'), None)
+                if ex is None:
+                    break
+                rets = [r for r in ast.walk(ex) if isinstance(r, ast.Return)]
+                if all(r.value is None or (isinstance(r.value, ast.Constant) and r.value.value in (False, None)) for r in rets):
+                    break          # never swallows
+                UNCERTAIN_CM.append((w, f'{ce.func.id}.__exit__ may swallow exceptions'))
+                return True
+            fn = m.funcs.get(ce.func.id)
+            if fn is not None and any('contextmanager' in norm(d) for d in fn.decorator_list):
+                guarded = any(isinstance(t, ast.Try) and t.handlers and any(isinstance(y, (ast.Yield, ast.YieldFrom)) for b in t.body for y in ast.walk(b)) for t in ast.walk(fn))
+                if guarded:
+                    UNCERTAIN_CM.append((w, f'the context manager {ce.func.id} handles exceptions raised in the with body'))
+                    return True
+                break
+    return False
 
 
 def _in_list(node, stmts):
@@ -153,6 +202,8 @@ class Effects:
         self.value_vars = value_vars or {}     # (modname, funcname) -> set of names holding script values
         self.summaries = summaries or {}       # funcname -> set(exc) for functions summarised by another property
         self.extra = extra_primitives
+        CM_REPO[0] = repo
+        del UNCERTAIN_CM[:]
 
     # ---- primitive table
     def primitives(self, mod, func):
